@@ -6,6 +6,8 @@ generator inside `sorted`, attribute stores, in-memory files).  Each has its own
 check: the body must consist of *exactly* the statement shapes below (compared on the unparsed AST).
 What flows from the source into the Gallina text - the DECISIONS Model/Listing.v depends on:
 
+  load       the format check `if not isinstance(raw, list)` (the empty list is a listing), the legacy
+             hash_name of an md5-dos2unix odb, then from_list(raw, hash_name=hash_name).
   add        `self.__dict__.pop('_trie', None)` is the first statement and unconditional; the stored
              value is the tuple (meta, oid): which parameter lands in which slot.
   __iter__   yields (key, value[0], value[1]) over self._dict.items()  (dict order).
@@ -314,6 +316,41 @@ def unit_tree(u):
     _want(U, "Tree.from_list branch", br.orelse, 0, "hash_info = HashInfo.from_dict(entry)")
     _want(U, "Tree.from_list loop", lb, 5, "tree.add(parts, meta, hash_info)")
 
+    # ---- load: what is accepted as a listing, and the hash_name it hands to from_list
+    f_ld = u.find_func(tree, "Tree.load")
+    u.note(f_ld)
+    if [_u(x) for x in f_ld.decorator_list] != ["classmethod"] or _args(f_ld) != ["cls", "odb", "hash_info", "hash_name"] \
+            or [_u(x) for x in f_ld.args.defaults] != ["None"]:
+        raise U.Unsupported("Tree.load: not a classmethod (cls, odb, hash_info, hash_name=None)")
+    b = _body(f_ld)
+    if len(b) != 10:
+        raise U.Unsupported(f"Tree.load: {len(b)} statements, expected 10")
+    _want(U, "Tree.load", b, 0, "obj = odb.get(hash_info.value)")
+    _want(U, "Tree.load", b, 1,
+          "try:\n    with obj.fs.open(obj.path, 'r') as fobj:\n        raw = json.load(fobj)\n"
+          "except ValueError as exc:\n    raise ObjectFormatError(f'{obj} is corrupted') from exc")
+    chk = b[2]
+    if not (isinstance(chk, ast.If) and not chk.orelse and _u(chk.test) == "not isinstance(raw, list)"
+            and isinstance(chk.body[-1], ast.Raise) and _u(chk.body[-1].exc).startswith("ObjectFormatError(")):
+        raise U.Unsupported(f"Tree.load: the format check is `if {_u(chk.test) if isinstance(chk, ast.If) else _u(chk)}`, "
+                            "expected `if not isinstance(raw, list): ... raise ObjectFormatError` (every list, the empty "
+                            "one included, is a listing)")
+    hn = b[3]
+    if not (isinstance(hn, ast.If) and not hn.orelse and len(hn.body) == 1 and isinstance(hn.test, ast.BoolOp)
+            and isinstance(hn.test.op, ast.And) and len(hn.test.values) == 2 and _u(hn.test.values[0]) == "hash_name is None"
+            and isinstance(hn.test.values[1], ast.Compare) and _u(hn.test.values[1].left) == "odb.hash_name"
+            and isinstance(hn.test.values[1].ops[0], ast.Eq) and isinstance(hn.body[0], ast.Assign)
+            and _u(hn.body[0].targets[0]) == "hash_name"):
+        raise U.Unsupported(f"Tree.load: statement 3 is not `if hash_name is None and odb.hash_name == <str>: hash_name = <str>`: `{_u(hn)}`")
+    ld_from = _str_const(U, hn.test.values[1].comparators[0], "Tree.load legacy odb name")
+    ld_to = _str_const(U, hn.body[0].value, "Tree.load legacy hash_name")
+    _want(U, "Tree.load", b, 4, "tree = cls.from_list(raw, hash_name=hash_name)")
+    _want(U, "Tree.load", b, 5, "tree.path = obj.path")
+    _want(U, "Tree.load", b, 6, "tree.fs = obj.fs")
+    _want(U, "Tree.load", b, 7, "tree.hash_info = hash_info")
+    _want(U, "Tree.load", b, 8, "tree.oid = hash_info.value")
+    _want(U, "Tree.load", b, 9, "return tree")
+
     # ---------------------------------------------------------------- emission
     o = u.out
     o.append("(* The decisions of hashfile/tree.py that Model/Listing.v depends on.  Runtime (dict operations, the\n"
@@ -400,4 +437,11 @@ def unit_tree(u):
              "      end\n"
              "  | Some _ => inr 99\n"
              "  end.\n")
+    o.append(f"(* {rel}:{f_ld.lineno} Tree.load: json.load; `if not isinstance(raw, list)` -> ObjectFormatError (every list, the\n"
+             f"   empty one included, is a listing); hash_name = {ld_to!r} if hash_name is None and odb.hash_name == {ld_from!r};\n"
+             "   then from_list(raw, hash_name) *)\n"
+             "Definition g_load_hash_name (odb_name : list N) (hash_name : option (list N)) : option (list N) :=\n"
+             "  match hash_name with\n"
+             f"  | None => if list_N_eqb odb_name {_cps(ld_from)} then Some {_cps(ld_to)} else None\n"
+             "  | Some hn => Some hn\n  end.\n")
     return u
